@@ -24,6 +24,9 @@ CLAIMED = {
  "C05": dict(cat="model_checking", ref="DESIGN.md 6 (C05), 4.3",
    text="Every page image the library writes is decoded by an independent parser and TLC (Trace_Page) evaluates the structural and accounting predicates at every header write, cross-checks the final file, and DB::check() must agree; histories are TLC-generated (nested bucket deletions at several levels in one transaction, merges/splits on three-level trees) and random.",
    note=L1NOTE, tech="TLA+ predicates over decoded pages evaluated by TLC on recorded executions"),
+ "C06": dict(cat="model_checking", ref="DESIGN.md 6 (C06)",
+   text="KVStore (OnlyCommitChanges: an error result or Drop leaves the committed state; mutators on read-only transactions yield ReadOnlyTx) and PageStore (no write outside a commit; Rollback changes nothing shared) model-checked. TLC-generated transactions (bucket deletions at several levels, deletes on three-level trees) are abandoned, re-run and committed; random histories with frequent rollbacks, failing calls, read-only mutators and re-opens with other options are validated by Trace_KV and Trace_Page: no write or header write outside a commit, file hash and length unchanged around every rollback / read-only transaction / failed call / re-open, shared free list untouched, later allocations exactly as without the abandoned transaction.",
+   note=L1NOTE, tech="TLA+ L0+L1 specs + TLC; trace validation incl. file hashes"),
  "C07": dict(cat="model_checking", ref="DESIGN.md 6 (C07)",
    text="L0 transaction view: the full read API (get, scan, seek, re-seek, ranges, buckets, kv_pairs, counter, after-the-end probe) is issued after every single operation of a write transaction, in TLC-generated behaviours over tree-shape profiles and in random traces, and compared with KVOps!Do on the transaction's own view.",
    note="Trusted: TLC, exec.rs projection.", tech="TLA+ L0 spec + TLC; behaviour replay with read-back after every op; trace validation"),
@@ -39,6 +42,15 @@ CLAIMED = {
  "C12": dict(cat="model_checking", ref="DESIGN.md 6 (C12)",
    text="PageStore with Damage(slot) at quiescent points model-checked (FallbackIntact, AfterCrash). Gen_Damage enables Damage for each slot after open and after every acknowledged commit of recorded executions; each recipe is concretised as every single-byte change at every offset of the header page (several masks), zeroing, all-ones, random overwrites; the real code must open and show the other header's commit (either, where the pinned layout neither hashes nor reads the byte), pass DB::check and commit again.",
    note=L1NOTE, tech="TLA+ L1 spec + TLC; TLC-generated damage recipes concretised exhaustively per byte"),
+ "C13": dict(cat="model_checking", ref="DESIGN.md 6 (C13), 3.4",
+   text="OpenLock.tla (open-or-create, lock, initialise if empty, map, commit a marker, close) model-checked for 3 processes, file present or absent: Exclusive, SeesAll, NoFailure, NothingLost, Waits (fair); the pinned create-before-lock order violates NoFailure (vacuity guard). Every ordering with <= k preemptions is forced on real processes gated at the open/init/lock hook points; overlap is observed by effect (monotonic intervals, markers seen, exit status); plus ungated runs with random offsets and hold times.",
+   note="Trusted: TLC; transcription of the open path; orderings forced at hook points only; flock observed by effect.", tech="TLA+ L3 spec + TLC; TLC-generated orderings forced on real processes"),
+ "C15": dict(cat="translation_validation", ref="DESIGN.md 6 (C15)",
+   text="Golden files written once by the pinned release (4 page sizes, nested buckets, multi-page values, non-empty free list) and their legacy-header rewrites are recorded behaviours the current code must accept and extend: Trace_KV starts from the recorded logical content, Trace_Page from the independent parse of the file (structure, accounting, header choice), a seeded random history is committed on top and validated step by step incl. every page image, the final file is parsed again; every mismatching page size must be refused with the file unchanged.",
+   note="Trusted: parse.rs encodes the pinned layout (incl. SHA3 legacy header) literally; golden files generated from commit f5c2214.", tech="golden files as recorded behaviours validated by the TLA+ trace specs; independent parser as layout oracle"),
+ "C16": dict(cat="model_checking", ref="DESIGN.md 6 (C16)",
+   text="L0 has no option variable: the same TLC-generated histories with TLC-computed results are replayed under a covering array (quick) / the full product (thorough) of page size x initial pages x strict x populate; non-multiple-of-8 page sizes must work or be refused without killing the process; growth runs drive a 4-page file across several 8 MiB extensions with the high-water mark creeping over each file end (also exactly one page beyond, and by more than one step at once), every write validated by Trace_Page to lie inside the file as it was, values read back through the same handle.",
+   note="Trusted: TLC, exec.rs projection, libc interposer.", tech="TLA+ L0 spec + TLC; option-product replay; trace validation of growth"),
 }
 
 NOT_YET = "check not built yet in this revision of the framework (see DESIGN.md 9 for the construction order)"
